@@ -2,8 +2,18 @@
    sexp_mark / sexp_reset_weak_references / sexp_finalize / sexp_sweep (the body of sexp_gc, gc.c:776-823),
    triggered from Scheme by (verif-gc) at any depth of the running VM.
 
-   usage: embed_c02 <workload.scm> <dump file> [probe]
+   usage: embed_c02 <workload.scm> <dump file> [probe | gcmacros]
      probe: print the type table of a fresh context (used by gen/c02_layout.py) and exit.
+     gcmacros: for K = 1..7 use sexp_gc_var<K> / sexp_gc_preserve<K> / sexp_gc_release<K> as compiled from the tree's
+       sexp.h around a real sexp_gc and print on stdout, per arity,
+         G <K> chain=<i,...> intact=<K digits> release=<0|1>
+       (preceded by  I <K> init=<K digits>: digit i is 1 when the i-th variable holds SEXP_VOID right after sexp_gc_var<K>)
+       chain = the context's saves list as the marker walks it (gc.c:264-267) after preserve<K>: 1-based position of the
+       registered variable among the K arguments (-1: some other variable), 0 = reached the list the caller had, ? = ended
+       in NULL / longer than 64 records without reaching it; intact: digit i is 1 when the fresh object held only by the
+       i-th variable is still the same string after the collection and 3000 further allocations; release: the saves list
+       is the caller's again after release<K>.  Compared by props/C02.py with the extracted model run on the table
+       regenerated from the same header (coq/C02/GcMacros.v, macro_report).
 
    dump records (hex unless noted):
      T <num_types dec> <SEXP_CONTEXT tag dec> <gc# dec>
@@ -110,6 +120,120 @@ static sexp verif_gc (sexp ctx, sexp self, sexp_sint_t n) {
   return sexp_make_fixnum(ngc);
 }
 
+/* ---- mode gcmacros: the compiled macro families around a real collection ---- */
+static sexp gcm_fresh (sexp ctx, int k, int i) {
+  char buf[64];
+  snprintf(buf, sizeof buf, "gcm-%d-%d-abcdefghijklmnopqrstuvwxyz", k, i);
+  return sexp_c_string(ctx, buf, -1);
+}
+static int gcm_in_free_chunk (sexp ctx, sexp x) {        /* is the address inside a chunk of a free list (= swept)? */
+  sexp_heap h; sexp_free_list q;
+  for (h = sexp_context_heap(ctx); h; h = h->next)
+    for (q = h->free_list->next; q; q = q->next)
+      if ((char*)x >= (char*)q && (char*)x < (char*)q + q->size) return 1;
+  return 0;
+}
+static int gcm_intact (sexp ctx, sexp x, int k, int i) {
+  char buf[64];
+  if (x && sexp_pointerp(x) && gcm_in_free_chunk(ctx, x)) return 0;
+  snprintf(buf, sizeof buf, "gcm-%d-%d-abcdefghijklmnopqrstuvwxyz", k, i);
+  return x && sexp_pointerp(x) && sexp_stringp(x) && sexp_string_size(x) == strlen(buf) && !strncmp(sexp_string_data(x), buf, strlen(buf));
+}
+static void gcm_churn (sexp ctx, int n) {
+  int i; sexp_gc_var1(junk); sexp_gc_preserve1(ctx, junk);
+  junk = SEXP_NULL;
+  for (i = 0; i < n; i++) junk = (i % 50 == 0) ? SEXP_NULL : sexp_cons(ctx, sexp_make_fixnum(i), junk);
+  sexp_gc_release1(ctx);
+}
+static void gcm_report (sexp ctx, int k, sexp **v, struct sexp_gc_var_t *before) {
+  struct sexp_gc_var_t *s; int i, n = 0;
+  printf("G %d chain=", k);
+  for (s = sexp_context_saves(ctx); s && s != before && n < 64; s = s->next, n++) {
+    int idx = -1;
+    for (i = 0; i < k; i++) if (s->var == v[i]) idx = i + 1;
+    if (s->var) printf("%d,", idx);
+  }
+  printf("%s", (s == before && n < 64) ? "0" : "?");
+}
+/* leave pointer-like junk in the stack area the next frame will use: a gc var that sexp_gc_var<K> does not initialise
+   then holds something the marker would follow */
+static void __attribute__((noinline)) gcm_dirty_stack (void) {
+  volatile sexp a[192]; int i;
+  for (i = 0; i < 192; i++) a[i] = (sexp)0x4141414141414140UL;
+  (void)a[7];
+}
+#define GCM_TEST(K, DECL, PRES, REL, ...) \
+static void __attribute__((noinline)) gcm_test##K (sexp ctx) { \
+  struct sexp_gc_var_t *before = sexp_context_saves(ctx); int i, ok[8]; \
+  DECL \
+  sexp *v[] = { __VA_ARGS__ }; \
+  printf("I %d init=", K); \
+  for (i = 0; i < K; i++) printf("%d", *v[i] == SEXP_VOID); \
+  printf("\n"); \
+  PRES; \
+  for (i = 0; i < K; i++) { gcm_churn(ctx, 7 * i + 3); *v[i] = gcm_fresh(ctx, K, i); } \
+  gcm_report(ctx, K, v, before); \
+  sexp_gc(ctx, NULL); \
+  for (i = 0; i < K; i++) ok[i] = gcm_intact(ctx, *v[i], K, i); \
+  gcm_churn(ctx, 3000); \
+  printf(" intact="); \
+  for (i = 0; i < K; i++) printf("%d", ok[i] && gcm_intact(ctx, *v[i], K, i)); \
+  REL; \
+  printf(" release=%d\n", sexp_context_saves(ctx) == before); \
+}
+GCM_TEST(1, sexp_gc_var1(a), sexp_gc_preserve1(ctx, a), sexp_gc_release1(ctx), &a)
+GCM_TEST(2, sexp_gc_var2(a, b), sexp_gc_preserve2(ctx, a, b), sexp_gc_release2(ctx), &a, &b)
+GCM_TEST(3, sexp_gc_var3(a, b, c), sexp_gc_preserve3(ctx, a, b, c), sexp_gc_release3(ctx), &a, &b, &c)
+GCM_TEST(4, sexp_gc_var4(a, b, c, d), sexp_gc_preserve4(ctx, a, b, c, d), sexp_gc_release4(ctx), &a, &b, &c, &d)
+GCM_TEST(5, sexp_gc_var5(a, b, c, d, e), sexp_gc_preserve5(ctx, a, b, c, d, e), sexp_gc_release5(ctx), &a, &b, &c, &d, &e)
+GCM_TEST(6, sexp_gc_var6(a, b, c, d, e, f), sexp_gc_preserve6(ctx, a, b, c, d, e, f), sexp_gc_release6(ctx), &a, &b, &c, &d, &e, &f)
+GCM_TEST(7, sexp_gc_var7(a, b, c, d, e, f, g), sexp_gc_preserve7(ctx, a, b, c, d, e, f, g), sexp_gc_release7(ctx), &a, &b, &c, &d, &e, &f, &g)
+
+/* ---- sexp_preserve_object / sexp_release_object (gc.c:116-129), the other half of the preservation interface ----
+   argv[4] = sequences separated by ';', each a list of p<id> / r<id> (ids 1..9) separated by ','; every sequence starts from an
+   empty preservatives list; prints  P <sequence> list=<ids on the list, head first>  per sequence, then
+   Q intact=<3 digits> after=<3 digits> list=<n>: three fresh strings held ONLY through the preservatives list survive a collection;
+   after releasing the middle one and collecting again it is swept (0) and the other two are intact. */
+static void gcm_preservatives (sexp ctx, const char *seqs) {
+  int i, id; const char *s = seqs; sexp ls; sexp a, b, c; int r1[3], r2[3];
+  sexp_gc_var2(objs, saved);
+  sexp_gc_preserve2(ctx, objs, saved);
+  saved = sexp_global(ctx, SEXP_G_PRESERVATIVES);
+  objs = sexp_make_vector(ctx, sexp_make_fixnum(10), SEXP_FALSE);
+  for (i = 0; i < 10; i++) sexp_vector_set(objs, sexp_make_fixnum(i), gcm_fresh(ctx, 100, i));
+  while (s && *s) {
+    const char *e = strchr(s, ';'); size_t n = e ? (size_t)(e - s) : strlen(s); size_t k;
+    sexp_global(ctx, SEXP_G_PRESERVATIVES) = SEXP_NULL;
+    printf("P %.*s list=", (int)n, s);
+    for (k = 0; k + 1 < n; ) {
+      char op = s[k]; id = s[k + 1] - '0';
+      if (id >= 0 && id <= 9) {
+        if (op == 'p') sexp_preserve_object(ctx, sexp_vector_ref(objs, sexp_make_fixnum(id)));
+        else if (op == 'r') sexp_release_object(ctx, sexp_vector_ref(objs, sexp_make_fixnum(id)));
+      }
+      k += 2; if (k < n && s[k] == ',') k++;
+    }
+    for (ls = sexp_global(ctx, SEXP_G_PRESERVATIVES), i = 0; sexp_pairp(ls) && i < 64; ls = sexp_cdr(ls), i++) {
+      for (id = 0; id < 10; id++) if (sexp_car(ls) == sexp_vector_ref(objs, sexp_make_fixnum(id))) break;
+      printf("%s%d", i ? "," : "", id < 10 ? id : -1);
+    }
+    printf("%s\n", (ls == SEXP_NULL) ? "" : ",?");
+    s = e ? e + 1 : NULL;
+  }
+  sexp_global(ctx, SEXP_G_PRESERVATIVES) = SEXP_NULL;
+  a = gcm_fresh(ctx, 200, 1); sexp_preserve_object(ctx, a);
+  b = gcm_fresh(ctx, 200, 2); sexp_preserve_object(ctx, b);
+  c = gcm_fresh(ctx, 200, 3); sexp_preserve_object(ctx, c);
+  sexp_gc(ctx, NULL);
+  r1[0] = gcm_intact(ctx, a, 200, 1); r1[1] = gcm_intact(ctx, b, 200, 2); r1[2] = gcm_intact(ctx, c, 200, 3);
+  sexp_release_object(ctx, b);
+  sexp_gc(ctx, NULL);
+  r2[0] = gcm_intact(ctx, a, 200, 1); r2[1] = !gcm_in_free_chunk(ctx, b); r2[2] = gcm_intact(ctx, c, 200, 3);
+  printf("Q intact=%d%d%d after=%d%d%d list=%d\n", r1[0], r1[1], r1[2], r2[0], r2[1], r2[2], (int)sexp_unbox_fixnum(sexp_length(ctx, sexp_global(ctx, SEXP_G_PRESERVATIVES))));
+  sexp_global(ctx, SEXP_G_PRESERVATIVES) = saved;
+  sexp_gc_release2(ctx);
+}
+
 int main (int argc, char **argv) {
   sexp ctx, res;
   struct sexp_struct probe;
@@ -125,6 +249,21 @@ int main (int argc, char **argv) {
     fprintf(out, "K num_core_types %d\nK context_tag %d\nK mark_mask %lx\nK sizeof_sexp %d\nK heap_align_1 %d\n",
             (int)SEXP_NUM_CORE_TYPES, (int)SEXP_CONTEXT, (unsigned long)mark_mask, (int)sizeof(sexp), (int)sexp_heap_align(1));
     dump_types(ctx);
+    fclose(out);
+    return 0;
+  }
+  if (argc > 3 && !strcmp(argv[3], "gcmacros")) {
+    /* nested inside a frame that has its own registered local, so that "the caller's list" is not NULL */
+    sexp_gc_var1(outer);
+    sexp_gc_preserve1(ctx, outer);
+    setvbuf(stdout, NULL, _IONBF, 0);      /* the lines printed before a crash must survive it */
+    outer = gcm_fresh(ctx, 0, 0);
+    gcm_dirty_stack(); gcm_test1(ctx); gcm_dirty_stack(); gcm_test2(ctx); gcm_dirty_stack(); gcm_test3(ctx); gcm_dirty_stack(); gcm_test4(ctx);
+    gcm_dirty_stack(); gcm_test5(ctx); gcm_dirty_stack(); gcm_test6(ctx); gcm_dirty_stack(); gcm_test7(ctx);
+    printf("G 0 outer=%d\n", gcm_intact(ctx, outer, 0, 0));
+    if (argc > 4) gcm_preservatives(ctx, argv[4]);
+    sexp_gc_release1(ctx);
+    fflush(stdout);
     fclose(out);
     return 0;
   }
